@@ -35,3 +35,26 @@ impl StreamW {
                 r is Err ==> final(fx)@.sent == old(fx)@.sent && final(fx)@.failed && final(fx)@.fin == old(fx)@.fin
     { unimplemented!() }
 }
+
+// the two relay tasks as the function that spawned them sees them
+pub struct AbortHandle { pub ghost which: int }
+pub struct JoinHandle { pub ghost which: int }
+pub struct JoinLog { pub ghost awaited: Set<int>, pub ghost aborted: Set<int> }
+impl JoinHandle {
+    #[verifier::external_body] pub fn abort_handle(&self) -> (r: AbortHandle) ensures r.which == self.which { unimplemented!() }
+    #[verifier::external_body] pub fn abort(&self, jl: &mut Ghost<JoinLog>) ensures final(jl)@.aborted == old(jl)@.aborted.insert(self.which), final(jl)@.awaited == old(jl)@.awaited { }
+}
+impl AbortHandle {
+    #[verifier::external_body] pub fn abort(&self, jl: &mut Ghost<JoinLog>) ensures final(jl)@.aborted == old(jl)@.aborted.insert(self.which), final(jl)@.awaited == old(jl)@.awaited { }
+}
+pub struct JoinRes;
+// tokio::join!(a, b): both run to completion
+#[verifier::external_body]
+pub fn vx_join2(a: JoinHandle, b: JoinHandle, jl: &mut Ghost<JoinLog>) -> (r: (JoinRes, JoinRes))
+    ensures final(jl)@.awaited == old(jl)@.awaited.insert(a.which).insert(b.which), final(jl)@.aborted == old(jl)@.aborted
+{ unimplemented!() }
+#[verifier::external_body]
+pub fn vx_choice() -> (r: bool) { true }
+pub struct AtomicU64 { pub v: u64 }
+impl AtomicU64 { pub fn load(&self, o: std::sync::atomic::Ordering) -> (r: u64) ensures r == self.v { self.v } }
+pub use std::sync::atomic::Ordering;
